@@ -267,3 +267,45 @@ pub fn value_to_j(v: &serde_json::Value) -> J {
 		}
 	}
 }
+
+// ------------------------------------------------------------------------------------
+// independent decoder of the subset (for expectations derived from the bytes)
+// ------------------------------------------------------------------------------------
+
+/// decodes map entries starting at `pos` until the closing brace; returns (tree, offset after '}')
+pub fn dec_entries(b: &[u8], mut pos: usize) -> Result<(Meta, usize), String> {
+	let mut out = vec![];
+	loop {
+		match *b.get(pos).ok_or("eof in map")? {
+			b'}' => return Ok((out, pos + 1)),
+			b'U' => {
+				let l = *b.get(pos + 1).ok_or("eof")? as usize;
+				let k = std::str::from_utf8(b.get(pos + 2..pos + 2 + l).ok_or("eof in key")?).map_err(|e| e.to_string())?.to_string();
+				pos += 2 + l;
+				match *b.get(pos).ok_or("eof in value")? {
+					b'S' => {
+						if b.get(pos + 1) != Some(&b'U') {
+							return Err("string length marker".into());
+						}
+						let l = *b.get(pos + 2).ok_or("eof")? as usize;
+						let s = std::str::from_utf8(b.get(pos + 3..pos + 3 + l).ok_or("eof in string")?).map_err(|e| e.to_string())?.to_string();
+						pos += 3 + l;
+						out.push((k, MVal::Str(s)));
+					}
+					b'l' => {
+						let x = b.get(pos + 1..pos + 5).ok_or("eof in int")?;
+						out.push((k, MVal::Int(i32::from_be_bytes([x[0], x[1], x[2], x[3]]))));
+						pos += 5;
+					}
+					b'{' => {
+						let (m, np) = dec_entries(b, pos + 1)?;
+						pos = np;
+						out.push((k, MVal::Map(m)));
+					}
+					c => return Err(format!("value type {:#x}", c)),
+				}
+			}
+			c => return Err(format!("key type {:#x}", c)),
+		}
+	}
+}
